@@ -20,7 +20,7 @@ ANCHORS = ['lib/python/treadmill/vipfile.py', 'lib/python/treadmill/rulefile.py'
 PREAMBLE = ('From Coq Require Import ZArith List.\nImport ListNotations.\n'
             'From TM Require Import Node.Owners.\nOpen Scope Z_scope.\n')
 RUN_FN = 'run_case'
-IN_TYPE = 'cidr * list op'
+IN_TYPE = 'cidr * list xop'
 ENVS = ['dev', 'qa', 'uat', 'prod']
 PROTOS = ['tcp', 'udp']
 ENDPOINTS = ['http', 'ssh', 'nodeinfo']
@@ -29,6 +29,8 @@ VIP_OPS = ('vip_alloc', 'vip_free', 'vip_gc')
 RULE_OPS = ('rule_create', 'rule_unlink', 'rule_gc')
 SPEC_OPS = ('spec_create', 'spec_unlink', 'spec_unlink_all', 'spec_gc')
 SVC_OPS = ('svc_create', 'svc_delete', 'svc_sync', 'svc_restart')
+# a collection during which an owner appears and registers an entry (after the collector's first directory listing)
+GCWITH = {'vip_gc_with': 'vips', 'rule_gc_with': 'rules', 'spec_gc_with': 'specs'}
 
 
 def owner_name(i):
@@ -108,8 +110,13 @@ def gen_managers(rng, case, nops):
             elif y < 0.85:
                 a = rng.choice(used_ips) if rng.random() < 0.5 else base + rng.randrange(0, min(size, 8))
                 ops.append(['vip_free', o, a])
-            else:
+            elif y < 0.93:
                 ops.append(['vip_gc'])
+            else:
+                if rng.random() < 0.6:
+                    ops.append(['res_down', o])
+                picked = None if rng.random() < 0.6 else base + rng.randrange(0, min(size, 8))
+                ops.append(['vip_gc_with', o, picked])
         elif kind == 'rule':
             y = rng.random()
             k = rng.randrange(1, len(RULES) + 1)
@@ -117,8 +124,12 @@ def gen_managers(rng, case, nops):
                 ops.append(['rule_create', k, o])
             elif y < 0.85:
                 ops.append(['rule_unlink', k, o])
-            else:
+            elif y < 0.93:
                 ops.append(['rule_gc'])
+            else:
+                if rng.random() < 0.6:
+                    ops.append(['app_down', o])
+                ops.append(['rule_gc_with', k, o])
         else:
             y = rng.random()
             if used_specs and rng.random() < 0.6:
@@ -136,8 +147,12 @@ def gen_managers(rng, case, nops):
                 ops.append(['spec_unlink', sp, owner])
             elif y < 0.88:
                 ops.append(['spec_unlink_all', sp[0], rng.choice([None, sp[1]]), rng.choice([None, sp[2]]), owner])
-            else:
+            elif y < 0.94:
                 ops.append(['spec_gc'])
+            else:
+                if rng.random() < 0.6:
+                    ops.append(['app_down', o])
+                ops.append(['spec_gc_with', sp, o])
     return ops
 
 
@@ -426,6 +441,66 @@ class World:
         return dict(appname=self.name(sp[0]), proto=PROTOS[sp[1]], endpoint=ENDPOINTS[sp[2]],
                     real_port=sp[3], pid=sp[4], port=sp[5])
 
+    def gc_with(self, op):
+        """Run the real garbage_collect with os.listdir wrapped: right after the collector's FIRST directory listing
+        (whatever directory the implementation lists first) the owner's directory is created and the owner
+        registers its entry through a manager instance of its own - what a container start in another process
+        does.  The listing already taken is returned unchanged."""
+        m = impl()
+        k = op[0]
+        real_listdir = os.listdir
+        state = {'fired': False}
+        self.mid = None
+
+        def newcomer():
+            state['fired'] = True
+            os.listdir = real_listdir
+            try:
+                if k == 'vip_gc_with':
+                    os.makedirs(os.path.join(self.res_dir, self.name(op[1])), exist_ok=True)
+                    other = m['vipfile'].VipMgr(self.cidr, self.vips_dir, self.res_dir)
+                    try:
+                        other.alloc(self.name(op[1]), None if op[2] is None else ip_str(op[2]))
+                    except Exception:   # noqa - the newcomer's failure is its own business
+                        pass
+                elif k == 'rule_gc_with':
+                    os.makedirs(os.path.join(self.apps_dir, self.name(op[2])), exist_ok=True)
+                    r = RULES[op[1] - 1]
+                    try:
+                        m['rulefile'].RuleMgr(self.rules_dir, self.apps_dir).create_rule(
+                            r['chain'], make_rule(r), self.name(op[2]))
+                    except OSError:
+                        pass
+                else:
+                    os.makedirs(os.path.join(self.apps_dir, self.name(op[2])), exist_ok=True)
+                    try:
+                        m['endpoints'].EndpointsMgr(self.ep_dir).create_spec(
+                            owner=os.path.join(self.apps_dir, self.name(op[2])), **self.spec_args(op[1]))
+                    except OSError:
+                        pass
+                self.mid = self.snapshot()
+            finally:
+                os.listdir = hooked
+
+        def hooked(path='.'):
+            out = real_listdir(path)
+            if not state['fired']:
+                newcomer()
+            return out
+        os.listdir = hooked
+        try:
+            if k == 'vip_gc_with':
+                self.vips.garbage_collect()
+            elif k == 'rule_gc_with':
+                self.rules.garbage_collect()
+            else:
+                m['endpoints'].garbage_collect(self.ep_dir)
+        finally:
+            os.listdir = real_listdir
+        if not state['fired']:      # a collector that lists nothing: the owner appears afterwards
+            newcomer()
+            os.listdir = real_listdir
+
     def apply(self, op):
         k = op[0]
         if k in ('res_up', 'app_up'):
@@ -464,6 +539,8 @@ class World:
                                 owner=None if op[4] is None else self.name(op[4]))
         elif k == 'spec_gc':
             impl()['endpoints'].garbage_collect(self.ep_dir)
+        elif k in GCWITH:
+            self.gc_with(op)
         elif k == 'svc_create':
             rep = self.svc.on_create_request(self.name(op[1]), {'environment': ENVS[op[2] - 1]})
             return [0, ip_int(rep['vip'])]
@@ -491,7 +568,10 @@ def impl_run(case):
                 res = [exc_code(e)]
                 err = '%s: %s' % (type(e).__name__, e)
             after = w.snapshot()
-            steps.append({'res': res, 'err': err, 'after': after})
+            st = {'res': res, 'err': err, 'after': after}
+            if op[0] in GCWITH:
+                st['mid'] = w.mid       # the host right after the newcomer registered, before any entry is visited
+            steps.append(st)
         return {'init': before, 'steps': steps}
     finally:
         w.close()
@@ -507,6 +587,8 @@ def dump_rows(rows):
 
 def dump_after(op, snap):
     k = op[0]
+    if k in GCWITH:
+        return dump_rows(snap[GCWITH[k]])
     if k in VIP_OPS:
         return dump_rows(snap['vips'])
     if k in RULE_OPS:
@@ -589,6 +671,23 @@ def oracle(case, obs):
         after = st['after']
         k = op[0]
         where = 'op %d %r' % (n, op)
+        if k in GCWITH:
+            # the newcomer: only its own entry may have appeared, nothing may have gone
+            table = GCWITH[k]
+            mid = st.get('mid') or before
+            owner = op[1] if k == 'vip_gc_with' else op[2]
+            tb, tm = _tbl(before[table]), _tbl(mid[table])
+            for key, o in tb.items():
+                if tm.get(key) != o:
+                    bad('%s-entry-removed-by-non-owner' % table, '%s: the newcomer changed %r' % (where, key))
+            for key, o in tm.items():
+                if key not in tb and o != owner:
+                    bad('%s-entry-created-for-someone-else' % table, '%s: new entry %r -> %d' % (where, key, o))
+            # from here on the step is a plain collection on the host the collector actually visited
+            before = mid
+            op = [{'vips': 'vip_gc', 'rules': 'rule_gc', 'specs': 'spec_gc'}[table]]
+            k = op[0]
+            where += ' (owner %d appeared and registered after the first directory listing)' % owner
         # schedules outside what services/_base_service.py produces (Owners.guard): a collection while a device's
         # resource directory is missing, or the owner freeing its address behind the service's back
         if k == 'vip_gc' and any(d[1] != -1 and d[0] not in before['res'] for d in before['devs']):
@@ -674,6 +773,17 @@ def t_spec(sp):
             % tuple(G.z(x) for x in sp))
 
 
+def t_xop(op):
+    k = op[0]
+    if k == 'vip_gc_with':
+        return 'XVipGcWith %s %s' % (G.z(op[1]), t_optz(op[2]))
+    if k == 'rule_gc_with':
+        return 'XRuleGcWith %s %s' % (G.z(op[1]), G.z(op[2]))
+    if k == 'spec_gc_with':
+        return 'XSpecGcWith %s %s' % (t_spec(op[1]), G.z(op[2]))
+    return 'XBase (%s)' % t_op(op)
+
+
 def t_op(op):
     k = op[0]
     if k == 'res_up':
@@ -720,7 +830,7 @@ def t_op(op):
 def case_term(case):
     base, plen = case['cidr']
     c = '{| c_base := %s; c_size := %s |}' % (G.z(base), G.z(1 << (32 - plen)))
-    return G.pair(c, G.lst([t_op(o) for o in case['ops']]))
+    return G.pair(c, G.lst([t_xop(o) for o in case['ops']]))
 
 
 def nontrivial(case, obs):
@@ -742,6 +852,8 @@ def nontrivial(case, obs):
         if k in ('vip_gc', 'rule_gc', 'spec_gc', 'svc_sync') and (before['vips'], before['rules'], before['specs']) != \
                 (after['vips'], after['rules'], after['specs']):
             return True
+        if k in GCWITH and st.get('mid') and st['mid'][GCWITH[k]] != before[GCWITH[k]]:
+            return True         # the owner that appeared during the collection did register something
         if k == 'svc_create' and any(d[0] == op[1] and d[1] != -1 for d in before['devs']):
             return True
         before = after
@@ -752,7 +864,8 @@ def _extra(_r, cases, obs):
     dist = {'family': {}, 'ops': {}, 'results': {}, 'prefix_len': {}}
     notes = {'non_owner_release_attempts': 0, 'gc_removed_entries': 0, 'spec_repeat_create_raises': 0,
              'address_exhausted': 0, 'picked_network_or_broadcast_allocated': 0, 'service_reuse': 0,
-             'unguarded_collections': 0}
+             'unguarded_collections': 0, 'collections_with_newcomer': 0, 'newcomer_registered': 0,
+             'newcomer_was_dead_before': 0}
     for c, o in zip(cases, obs):
         dist['family'][c['family']] = dist['family'].get(c['family'], 0) + 1
         dist['prefix_len'][str(c['cidr'][1])] = dist['prefix_len'].get(str(c['cidr'][1]), 0) + 1
@@ -770,6 +883,14 @@ def _extra(_r, cases, obs):
                 notes['non_owner_release_attempts'] += 1
             if k == 'spec_unlink' and op[2] is not None and _tbl(before['specs']).get(tuple(op[1])) not in (None, op[2]):
                 notes['non_owner_release_attempts'] += 1
+            if k in GCWITH:
+                notes['collections_with_newcomer'] += 1
+                t = GCWITH[k]
+                owner = op[1] if k == 'vip_gc_with' else op[2]
+                if st.get('mid') and st['mid'][t] != before[t]:
+                    notes['newcomer_registered'] += 1
+                if owner not in before['res' if t == 'vips' else 'apps']:
+                    notes['newcomer_was_dead_before'] += 1
             if k.endswith('_gc') or k == 'svc_sync':
                 n0 = len(before['vips']) + len(before['rules']) + len(before['specs'])
                 n1 = len(st['after']['vips']) + len(st['after']['rules']) + len(st['after']['specs'])
@@ -806,7 +927,11 @@ TRUSTED = [
 ]
 ASSUMPTIONS = [
     'requests are sequential (the services are single-threaded); the readlink -> unlink window of free/unlink is '
-    'not interleaved with other requests',
+    'not interleaved with other requests.  One concurrent shape IS covered: an owner appearing and registering an '
+    'entry in the middle of a garbage collection (ops *_gc_with; the real garbage_collect runs with os.listdir '
+    'wrapped so that the newcomer acts right after the collector\'s first directory listing); the model gives such a '
+    'pass the effect of "appears; registers; collect" (Owners.lin), which holds for code that checks each owner '
+    'when it visits the entry',
     'VipMgr.initialize / RuleMgr.initialize / EndpointsMgr.initialize (boot-time wipe of the directory) are outside '
     'the operation alphabet',
     'EndpointsMgr.unlink_spec / unlink_all called without an owner (the administrative form used by sproc '
@@ -833,10 +958,12 @@ def run(tier, seed):
         'corpus': 'c14.json', 'shard': 20,
         'rule': 'seeded generator (one random.Random(seed)); 3 of 5 cases drive VipMgr/RuleMgr/EndpointsMgr directly '
                 '(8-40 ops by 2-8 owners on a /24../32 network, owners appearing/disappearing, releases by '
-                'non-owners, repeated creates, picked addresses incl. network/broadcast/outside), 2 of 5 drive '
+                'non-owners, repeated creates, picked addresses incl. network/broadcast/outside, collections during which '
+                'an owner (mostly one that was gone) appears and registers an entry), 2 of 5 drive '
                 'NetworkResourceService (create/repeat/delete/synchronize/restart with foreign junk allocations and '
                 'intruder frees); non-trivial = a release by a non-owner hit a held entry, or a collection removed '
-                'something, or a repeated service request found its device',
+                'something, or a repeated service request found its device, or an owner registered an entry '
+                'during a collection',
         'trusted': TRUSTED, 'assumptions': ASSUMPTIONS, 'anchors': ANCHORS, 'extra': _extra,
     })
 
